@@ -4563,15 +4563,13 @@ class ParameterizedMetaclass(type):
             mcs.__dict__[attribute_name].__set__(None,value)
 
         else:
-            type.__setattr__(mcs,attribute_name,value)
-
             if isinstance(value,Parameter):
-                # Same as add_parameter: name the Parameter, merge it with the
-                # ancestors' and drop the cached params() of the class and
-                # its subclasses
-                mcs._initialize_parameter(attribute_name,value)
-                for kls in descendents(mcs):
-                    kls._param__private.params.clear()
+                # Exactly add_parameter: install, name and merge the Parameter,
+                # put the previous attribute back when the merge is rejected,
+                # drop the cached params() of the class and its subclasses
+                mcs.param.add_parameter(attribute_name,value)
+            else:
+                type.__setattr__(mcs,attribute_name,value)
 
     def __param_inheritance(mcs, param_name, param):
         """
